@@ -226,6 +226,20 @@ def cases(draw):
         mk[s] = rows
     cfg, lab = draw(sessgen.full_config(names, start, end))
     cut = d0 + D.timedelta(days=draw(st.one_of(st.integers(n // 4, (3 * n) // 4), st.integers(0, n))))
+    if cfg['rebalance'] == 'end_of_month' and draw(st.booleans()):
+        # a market holiday on the last weekday of a month inside the session: no symbol has a bar that day, and the
+        # cut falls on the trading day before it
+        ends = [d for d in cal.schedule_dates('end_of_month', d0 + D.timedelta(days=2), d1)]
+        if ends:
+            hol = draw(st.sampled_from(ends))
+            for s in mk:
+                mk[s] = [r for r in mk[s] if (r[0], r[1], r[2]) != (hol.year, hol.month, hol.day)]
+            prev = hol - D.timedelta(days=1)
+            while prev.weekday() > 4:
+                prev -= D.timedelta(days=1)
+            if all(mk.values()) and prev >= d0:
+                cut = prev
+                labels.append('holiday_on_a_month_end_cut_the_day_before')
     return {'cfg': cfg, 'market': mk, 'cut': [cut.year, cut.month, cut.day],
             'mode': draw(st.sampled_from(['rewrite', 'rewrite', 'delete', 'mix', 'wild'])), 'seed': draw(st.integers(0, 10 ** 6)),
             'labels': labels + lab, 'reuse_handler': draw(st.sampled_from([False, False, True])),
